@@ -15,3 +15,10 @@ CHECKS = {
     },
 }
 NOT_APPLICABLE = {}
+
+# entries contributed per property (harness/registry.d/Cxx.json: technique, text, note, design_ref[, category])
+import glob as _glob
+import json as _json
+import os as _os
+for _f in sorted(_glob.glob(_os.path.join(_os.path.dirname(_os.path.abspath(__file__)), 'registry.d', 'C*.json'))):
+    CHECKS[_os.path.basename(_f)[:-5]] = _json.load(open(_f))
